@@ -14,6 +14,7 @@ From SWH.lib Require Import Bytes.
 From SWH Require Import Generated.
 From SWH.model Require Import Frozen.
 From SWH.proofs Require Import FrozenProofs FrozenAliasProofs FrozenEqProofs FrozenMappingProofs FrozenMain.
+From SWH.proofs Require FrozenExamples.
 Import ListNotations.
 Local Open Scope nat_scope.
 
